@@ -506,3 +506,244 @@ theorem newSpan_ans (s : Sampler) (i : StartIn) :
     ∧ (newSpan s i).ansTs = (shouldSample s i.script (newSpan s i).seenP (newSpan s i).seenTid).2.1 := by
   unfold newSpan
   simp
+
+/-! ### span trees: the recursion of `runTree`
+
+`runTree` starts the nodes in order and threads the list `done` of already started spans; a node looks its
+parent up in `done`. The lemmas below are stated for an arbitrary accumulator `done` (the induction needs it)
+and instantiated with `[]` at the end (`runTree_zip`). -/
+
+/-- executable form of "every parent index refers to an earlier node": the node at position `j` of `nodes`
+is node number `k + j` of the tree -/
+def wfFrom : Nat → List NodeIn → Bool
+  | _, [] => true
+  | k, n :: rest => decide (n.parentIdx < (k : Int)) && wfFrom (k + 1) rest
+
+theorem wfFrom_iff (k : Nat) (nodes : List NodeIn) :
+    wfFrom k nodes = true ↔
+      ∀ (j : Nat) (n : NodeIn), nodes[j]? = some n → n.parentIdx < ((k + j : Nat) : Int) := by
+  induction nodes generalizing k with
+  | nil => simp [wfFrom]
+  | cons n rest ih =>
+    simp only [wfFrom, Bool.and_eq_true, decide_eq_true_eq, ih]
+    constructor
+    · rintro ⟨h0, h⟩ j m hj
+      cases j with
+      | zero =>
+        simp only [List.getElem?_cons_zero, Option.some.injEq] at hj
+        subst hj; simpa using h0
+      | succ j =>
+        simp only [List.getElem?_cons_succ] at hj
+        have := h j m hj
+        rw [show k + (j + 1) = k + 1 + j by omega]; exact this
+    · intro h
+      refine ⟨by simpa using h 0 n (by simp), fun j m hj => ?_⟩
+      have := h (j + 1) m (by simpa using hj)
+      rw [show k + 1 + j = k + (j + 1) by omega]; exact this
+
+/-- for a whole tree: `wfFrom 0` says exactly that every parent index is below the node's own index -/
+theorem wfFrom_zero_iff (nodes : List NodeIn) :
+    wfFrom 0 nodes = true ↔ ∀ (k : Nat) (n : NodeIn), nodes[k]? = some n → n.parentIdx < (k : Int) := by
+  rw [wfFrom_iff]; simp only [Nat.zero_add]
+
+/-- the span the model starts for node `n` when the started spans are `outs` -/
+def nodeOut (s : Sampler) (ext : Ctx) (outs : List StartOut) (n : NodeIn) : StartOut :=
+  newSpan s ⟨parentCtx ext outs n.parentIdx, n.newRoot, n.genTid, n.genSid, n.script⟩
+
+theorem runTree_length (s : Sampler) (ext : Ctx) (nodes : List NodeIn) (done : List StartOut) :
+    (runTree s ext nodes done).length = done.length + nodes.length := by
+  induction nodes generalizing done with
+  | nil => simp [runTree]
+  | cons n rest ih => simp only [runTree, ih, List.length_append, List.length_cons, List.length_nil]; omega
+
+/-- the spans already started are final: `done` is a prefix of the result -/
+theorem runTree_prefix (s : Sampler) (ext : Ctx) (nodes : List NodeIn) (done : List StartOut) :
+    ∀ j, j < done.length → (runTree s ext nodes done)[j]? = done[j]? := by
+  induction nodes generalizing done with
+  | nil => intro j _; simp [runTree]
+  | cons n rest ih =>
+    intro j hj
+    simp only [runTree]
+    rw [ih _ j (by simp only [List.length_append, List.length_cons, List.length_nil]; omega),
+      List.getElem?_append_left hj]
+
+/-- looking a parent up below the length of a prefix gives the same context in the longer list -/
+theorem parentCtx_prefix (ext : Ctx) (done outs : List StartOut) (idx : Int)
+    (hp : ∀ j, j < done.length → outs[j]? = done[j]?) (hi : idx < (done.length : Int)) :
+    parentCtx ext outs idx = parentCtx ext done idx := by
+  unfold parentCtx
+  split
+  · rfl
+  · rw [List.getD_eq_getElem?_getD, List.getD_eq_getElem?_getD, hp _ (by omega)]
+
+/-- **every node's span is `newSpan` applied to the context its parent has in the final result**:
+when node `done.length + j` is started its parent (an earlier node, by `wfFrom`) is already in `done`, and
+appending the later spans does not change that entry -/
+theorem runTree_node (s : Sampler) (ext : Ctx) (nodes : List NodeIn) (done : List StartOut)
+    (hwf : wfFrom done.length nodes = true) :
+    ∀ (j : Nat) (n : NodeIn), nodes[j]? = some n →
+      (runTree s ext nodes done)[done.length + j]? = some (nodeOut s ext (runTree s ext nodes done) n) := by
+  induction nodes generalizing done with
+  | nil => intro j n h; simp at h
+  | cons m rest ih =>
+    simp only [wfFrom, Bool.and_eq_true, decide_eq_true_eq] at hwf
+    obtain ⟨hm, hrest⟩ := hwf
+    intro j n hj
+    simp only [runTree]
+    generalize ho : newSpan s ⟨parentCtx ext done m.parentIdx, m.newRoot, m.genTid, m.genSid, m.script⟩ = o
+    have hlen : (done ++ [o]).length = done.length + 1 := by simp
+    have hpre := runTree_prefix s ext rest (done ++ [o])
+    cases j with
+    | zero =>
+      simp only [List.getElem?_cons_zero, Option.some.injEq] at hj
+      subst hj
+      rw [Nat.add_zero, hpre _ (by omega), List.getElem?_append_right (Nat.le_refl _)]
+      simp only [Nat.sub_self, List.getElem?_cons_zero, Option.some.injEq]
+      unfold nodeOut
+      rw [parentCtx_prefix ext done (runTree s ext rest (done ++ [o])) m.parentIdx
+        (fun i hi => by rw [hpre i (by omega), List.getElem?_append_left hi]) hm]
+      exact ho.symm
+    | succ j =>
+      simp only [List.getElem?_cons_succ] at hj
+      have := ih _ (by rw [hlen]; exact hrest) j n hj
+      rw [hlen] at this
+      rw [show done.length + (j + 1) = done.length + 1 + j by omega]
+      exact this
+
+/-- the invariant threaded through the tree: flags fit in a byte, the trace id has 16 bytes -/
+def ctxGood (c : Ctx) : Prop := c.flags < 256 ∧ c.tid.length = 16
+
+theorem newSpan_good (s : Sampler) (i : StartIn) (hp : ctxGood i.parent) (hg : i.genTid.length = 16) :
+    ctxGood (newSpan s i).ctx ∧ (newSpan s i).seenTid.length = 16 := by
+  obtain ⟨hf, ht⟩ := hp
+  have hz : Ctx.zero.flags = 0 := rfl
+  have hzt : Ctx.zero.tid.length = 16 := by decide
+  have hs := flags_set
+  have hc := flags_clear
+  unfold ctxGood newSpan
+  simp only []
+  generalize shouldSample s i.script (if i.newRoot = true then Ctx.zero else i.parent) _ = r
+  obtain ⟨dec, ts, br⟩ := r
+  simp only []
+  have hfl : (if i.newRoot = true then Ctx.zero else i.parent).flags < 256 := by
+    split
+    · rw [hz]; omega
+    · exact hf
+  have htl : (if i.newRoot = true then Ctx.zero else i.parent).tid.length = 16 := by
+    split
+    · exact hzt
+    · exact ht
+  generalize (if i.newRoot = true then Ctx.zero else i.parent) = p at hfl htl
+  have h1 := hs p.flags hfl
+  have h2 := hc p.flags hfl
+  have htid : (if (!idValid p.tid) = true then (i.genTid, GenCall.newIDs) else (p.tid, GenCall.newSpanID)).1.length = 16 := by
+    split
+    · exact hg
+    · exact htl
+  refine ⟨⟨?_, htid⟩, htid⟩
+  split <;> omega
+
+theorem parentCtx_good (ext : Ctx) (outs : List StartOut) (idx : Int) (he : ctxGood ext)
+    (ho : ∀ o ∈ outs, ctxGood o.ctx) (hi : idx < (outs.length : Int)) : ctxGood (parentCtx ext outs idx) := by
+  unfold parentCtx
+  split
+  · exact he
+  · have hlt : idx.toNat < outs.length := by omega
+    rw [List.getD_eq_getElem?_getD, List.getElem?_eq_getElem hlt]
+    exact ho _ (List.getElem_mem hlt)
+
+/-- every span started in a well-formed tree keeps the invariant -/
+theorem runTree_good (s : Sampler) (ext : Ctx) (nodes : List NodeIn) (done : List StartOut) (he : ctxGood ext)
+    (hg : ∀ n ∈ nodes, n.genTid.length = 16) (hwf : wfFrom done.length nodes = true)
+    (hd : ∀ o ∈ done, ctxGood o.ctx) : ∀ o ∈ runTree s ext nodes done, ctxGood o.ctx := by
+  induction nodes generalizing done with
+  | nil => simpa [runTree] using hd
+  | cons m rest ih =>
+    simp only [wfFrom, Bool.and_eq_true, decide_eq_true_eq] at hwf
+    obtain ⟨hm, hrest⟩ := hwf
+    simp only [runTree]
+    apply ih
+    · intro n hn; exact hg n (List.mem_cons_of_mem _ hn)
+    · simpa using hrest
+    · intro o ho
+      rcases List.mem_append.mp ho with ho | ho
+      · exact hd o ho
+      · simp only [List.mem_singleton] at ho
+        subst ho
+        exact (newSpan_good s _ (parentCtx_good ext done m.parentIdx he hd hm) (hg m List.mem_cons_self)).1
+
+/-- the whole tree, started from the empty accumulator: as many spans as nodes, and every pair
+(node, its span) satisfies: the span is `newSpan` on the parent's context *in the final result*, and that
+parent context keeps the invariant needed by the per-span theorems -/
+theorem runTree_zip (s : Sampler) (ext : Ctx) (nodes : List NodeIn) (he : ctxGood ext)
+    (hg : ∀ n ∈ nodes, n.genTid.length = 16) (hwf : wfFrom 0 nodes = true) :
+    (runTree s ext nodes []).length = nodes.length ∧
+    ∀ n o, (n, o) ∈ nodes.zip (runTree s ext nodes []) →
+      o = nodeOut s ext (runTree s ext nodes []) n
+      ∧ ctxGood (parentCtx ext (runTree s ext nodes []) n.parentIdx) ∧ n.genTid.length = 16 := by
+  have hlen : (runTree s ext nodes []).length = nodes.length := by simp [runTree_length]
+  refine ⟨hlen, ?_⟩
+  intro n o hmem
+  obtain ⟨j, hj⟩ := List.mem_iff_getElem?.mp hmem
+  obtain ⟨hn, ho⟩ := List.getElem?_zip_eq_some.mp hj
+  simp only [] at hn ho
+  have hnode := runTree_node s ext nodes [] hwf j n hn
+  simp only [List.length_nil, Nat.zero_add] at hnode
+  rw [hnode] at ho
+  have hjl : j < nodes.length := by
+    rcases Nat.lt_or_ge j nodes.length with h | h
+    · exact h
+    · rw [List.getElem?_eq_none h] at hn; cases hn
+  have hp := (wfFrom_iff 0 nodes).mp hwf j n hn
+  refine ⟨(Option.some.inj ho).symm, ?_, hg n (List.of_mem_zip hmem).1⟩
+  apply parentCtx_good ext _ _ he (runTree_good s ext nodes [] he hg hwf (by simp))
+  rw [hlen]; omega
+
+/-- the specification's parent lookup in the observations is the model's lookup in the results -/
+theorem parentOf_map (ext : Ctx) (outs : List StartOut) (idx : Int) :
+    Spec.parentOf ext (outs.map Spec.obsOf) idx = parentCtx ext outs idx := by
+  unfold Spec.parentOf parentCtx
+  split
+  · rfl
+  · rw [List.getD_eq_getElem?_getD, List.getD_eq_getElem?_getD, List.getElem?_map]
+    cases outs[idx.toNat]? <;> rfl
+
+/-- what `newSpan` records as the span's parent -/
+theorem newSpan_psc (s : Sampler) (i : StartIn) :
+    (newSpan s i).psc = if i.newRoot then Ctx.zero else i.parent := rfl
+
+/-- the model's export filter (recording and sampled) is the specification's (sampled flag) for a span whose
+sampled flag implies recording -/
+theorem export_pred (o : StartOut) (h : o.ctx.sampled = true → o.recording = true) :
+    (o.recording && o.ctx.sampled) = (o.ctx.flags % 2 == 1) := by
+  have hs : o.ctx.sampled = (o.ctx.flags % 2 == 1) := rfl
+  rw [← hs]
+  cases hc : o.ctx.sampled
+  · simp
+  · simp [h hc]
+
+/-- the exporter's contents of a tree: if every (node, span) pair records iff sampled-and-recording and names
+the parent the specification expects, `exportedOf` is what `Spec.exportOK` asks for -/
+theorem export_zip (ext : Ctx) (nodes : List NodeIn) (outs : List StartOut) (hlen : outs.length = nodes.length)
+    (h : ∀ n o, (n, o) ∈ nodes.zip outs →
+      (o.recording && o.ctx.sampled) = (o.ctx.flags % 2 == 1)
+      ∧ o.psc = if n.newRoot then Ctx.zero else parentCtx ext outs n.parentIdx) :
+    Spec.exportOK ext nodes (outs.map Spec.obsOf) (exportedOf outs) = true := by
+  have hs : outs = (nodes.zip outs).map Prod.snd := (List.map_snd_zip (Nat.le_of_eq hlen)).symm
+  unfold Spec.exportOK exportedOf
+  simp only [beq_iff_eq]
+  rw [List.zip_map_right]
+  conv => lhs; rw [hs]
+  simp only [← List.map_reverse, List.filter_map, List.map_map]
+  have hf : (nodes.zip outs).reverse.filter
+        ((fun o : StartOut => o.recording && o.ctx.sampled) ∘ Prod.snd)
+      = (nodes.zip outs).reverse.filter
+        ((fun x : NodeIn × Spec.Obs => x.2.ctx.flags % 2 == 1) ∘ Prod.map id Spec.obsOf) := by
+    apply List.filter_congr
+    rintro ⟨n, o⟩ hx
+    exact (h n o (List.mem_reverse.mp hx)).1
+  rw [hf]
+  apply List.map_congr_left
+  rintro ⟨n, o⟩ hx
+  have hp := (h n o (List.mem_reverse.mp (List.mem_filter.mp hx).1)).2
+  simp only [Function.comp, Prod.map, id, Spec.obsOf, parentOf_map, hp]
